@@ -606,6 +606,9 @@ func rewriteHs(c *HsCase, m []byte) ([]byte, bool) {
 	return m, c.Mut == "none"
 }
 
+// ErrHsHung: a handshake-tamper case made a node hang; its line has been written, the process should end
+var ErrHsHung = errors.New("handshake case hung")
+
 func (r *HostRunner) RunHs(c *HsCase) error {
 	r.seq++
 	tag := fmt.Sprintf("%d_%d", os.Getpid()%10000, r.seq)
@@ -656,8 +659,19 @@ func (r *HostRunner) RunHs(c *HsCase) error {
 	} else {
 		p.Relay.RewriteUp = rewrite
 	}
-	_, cerr := p.Connect("ck")
-	line.ConnUp = cerr == nil
+	cdone := make(chan error, 1)
+	go func() { _, e := p.Connect("ck"); cdone <- e }()
+	select {
+	case cerr := <-cdone:
+		line.ConnUp = cerr == nil
+	case <-time.After(15 * time.Second):
+		// the dialing node does not come back from the handshake (it is busy for ever, or allocating): that is the verdict of this
+		// case; the process is in no state to go on with further cases
+		line.After = "hang"
+		r.emit(&line)
+		r.Cases++
+		return ErrHsHung
+	}
 	time.Sleep(20 * time.Millisecond)
 	probe := func(n gen.Node, from gen.PID, what string) string {
 		res := "hang"
